@@ -209,6 +209,50 @@ Section Power.
       + reflexivity.
   Qed.
 
+  (** ** The level does not depend on the creator cache - for EVERY event that cites the create
+      event, also one that cites several power-levels events (no [auth_keys_unique] here).  This is
+      the statement the repair 2da10dd of /repo established: before it the scan stopped as soon as
+      it had a power-levels event and knew the creator, and this lemma was false. *)
+  Lemma pl_scan_fst_indep : forall auths ls1 ls2 plev cre1 cre2,
+    fst (pl_scan st ls1 auths plev cre1) = fst (pl_scan st ls2 auths plev cre2).
+  Proof.
+    induction auths as [|a r IH]; intros ls1 ls2 plev cre1 cre2; cbn [pl_scan]; [reflexivity|].
+    destruct (fetch st a) as [aev|]; [|apply IH].
+    destruct (is_type_and_key aev t_power_levels []).
+    - cbn [fst snd]. apply IH.
+    - destruct (negb ls1 && is_type_and_key aev t_create []), (negb ls2 && is_type_and_key aev t_create []);
+        cbn [fst snd]; apply IH.
+  Qed.
+
+  Lemma pl_scan_snd_unlocked : forall auths plev cre, (cre = None \/ cre = Some ce) ->
+    snd (pl_scan st false auths plev cre) = if is_some cre || hasb is_cr auths then Some ce else None.
+  Proof.
+    induction auths as [|a r IH]; intros plev cre Hq; cbn [pl_scan hasb existsb].
+    - cbn [snd]. rewrite orb_false_r. destruct Hq; subst; reflexivity.
+    - fold (hasb is_cr r). destruct (fetch st a) as [aev|] eqn:Ef; [|cbn [orb]; apply IH; exact Hq].
+      fold (is_pl aev). fold (is_cr aev). destruct (is_pl aev) eqn:Epl.
+      + rewrite (is_pl_not_cr _ Epl). cbn [fst snd orb]. apply IH; exact Hq.
+      + cbn [negb andb]. destruct (is_cr aev) eqn:Ecr; cbn [fst snd].
+        * assert (aev = ce) by (eapply (hc_single Hc); eauto). subst aev.
+          rewrite (IH plev (Some ce) (or_intror eq_refl)). cbn [is_some orb]. now rewrite orb_true_r.
+        * cbn [orb]. apply IH; exact Hq.
+  Qed.
+
+  Definition level_of (o : outcome (Z * option str)) : outcome Z :=
+    match o with Ok (l, _) => Ok l | Err e => Err e | Panic s => Panic s end.
+
+  Theorem plfs_cache_independent n e :
+    fetch st n = Some e -> In c (e_auth e) ->
+    level_of (power_level_for_sender st None n) = level_of (power_level_for_sender st (Some cr) n).
+  Proof.
+    intros Hf Hcite. unfold power_level_for_sender. rewrite Hf. cbn [is_some].
+    rewrite (pl_scan_snd_unlocked (e_auth e) None None (or_introl eq_refl)).
+    rewrite (hasb_create e Hcite). cbn [is_some orb]. rewrite (hc_creator Hc).
+    rewrite (pl_scan_fst_indep (e_auth e) false true None None None).
+    destruct (fst (pl_scan st true (e_auth e) None None)) as [pe|]; [|reflexivity].
+    destruct (pl_user_level pe (e_sender e)); reflexivity.
+  Qed.
+
   Lemma plfs_create lock : (lock = None \/ lock = Some cr) ->
     exists l, power_level_for_sender st lock c = Ok (l, lock).
   Proof.
